@@ -105,16 +105,23 @@ TABLE_PATH = os.path.join(C.COQ, 'theories', 'Gen', 'UnitTable.v')
 _TAB = {}
 
 
+TERMS_PATH = os.path.join(C.COQ, 'theories', 'Gen', 'UnitTable.terms.json')
+
+
 def pregen(tier):
+    """regenerate Gen/UnitTable.v.  Wavelength factors and constants are observed; the flux terms are
+    translated from source, or - when the translator refuses the form of the source - taken from the
+    last successful translation (UnitTable.terms.json, written only from the real tree) and validated
+    against the running implementation in extra()."""
     _TAB.clear()
-    wtab, ftab, consts = G.write(rad(), TABLE_PATH)
-    _TAB.update({'w': wtab, 'f': ftab, 'c': consts})
+    wtab, ftab, consts, status = G.write(rad(), TABLE_PATH, TERMS_PATH, keep=(C.REPO == '/repo'))
+    _TAB.update({'w': wtab, 'f': ftab, 'c': consts, 'status': status})
 
 
 def table():
     if not _TAB:
-        txt, wtab, ftab, consts = G.generate(rad())
-        _TAB.update({'w': wtab, 'f': ftab, 'c': consts})
+        txt, wtab, ftab, consts, status = G.generate(rad(), TERMS_PATH, keep=False)
+        _TAB.update({'w': wtab, 'f': ftab, 'c': consts, 'status': status})
     return _TAB
 
 
